@@ -94,6 +94,9 @@ MUT["C12"] = [
          old="                self.n_evals[last_idx] += 1\n                return fval_orig, last_idx", new="                self.n_evals[last_idx] += 1\n                self.Y[last_idx] = fval_orig\n                return fval_orig, last_idx", expect="norecord_keeps_log"),
 ]
 
+MUT["C12"].append(dict(id="c12-merge-any-coordinate", what="merge index taken from the element-wise (2-D) comparison", path=P_FL, functions=[FL + "._record"],
+     old="                    idx = np.argwhere(duplicate_flag.all(axis=1))[0, 0]", new="                    idx = np.argwhere(duplicate_flag)[0, 0]", expect="partial_coincidence"))
+
 MUT["C17"] = [
     dict(id="c17-cons-sign", what="constraint filter keeps violators", path=P_CC, functions=[CC], old="        idx = C <= 0", new="        idx = C >= 0", expect="feasible"),
     dict(id="c17-no-dedupe", what="row de-duplication removed", path=P_CC, functions=[CC],
@@ -125,9 +128,21 @@ def scan_c01(index, registry):
     return scans.target_call_sites(index, registry)
 
 
+def panel(pid, quick=6, thorough=36, faults_q=0, faults_t=0, kinds=None, timeout=2400):
+    a = ["--prop", pid]
+    if kinds:
+        a += ["--kinds", kinds]
+    return dict(name="panel-" + pid, script="panel.py", args_quick=a + ["--runs", quick, "--faults", faults_q], args_thorough=a + ["--runs", thorough, "--faults", faults_t], timeout=timeout)
+
+
+def replay(pid, runs=24, faults=0):
+    return dict(script="panel.py", args=["--prop", pid, "--runs", runs, "--faults", faults], timeout=2400)
+
+
 PROPS = {
     "C13": dict(
         level="proof",
+        native=[panel('C13', 6, 36)], replay=replay('C13'),
         functions=[B + "._poll_step_", B + ".optimize", B + "._search_step_"],
         mutants=MUT["C13"],
         explanation="Mesh rule as postconditions of _poll_step_ (success: min(k+1,cap); failure: k-1 or k-2 exactly under the stall test; "
@@ -137,6 +152,7 @@ PROPS = {
     ),
     "C10": dict(
         level="proof",
+        native=[panel('C10', 4, 16, 6, 40)], replay=replay('C10', 8, 30),
         functions=[FL + ".__call__", B + "._init_mesh_", B + "._init_optimization_", B + "._search_step_", B + "._poll_step_", B + ".optimize"],
         scans=[scan_c03],
         mutants=MUT["C10"],
@@ -147,6 +163,8 @@ PROPS = {
     ),
     "C12": dict(
         level="proof",
+        native=[dict(name='logger-reference-model', script='logger_model.py', args_quick=['--histories', 150], args_thorough=['--histories', 3000], timeout=1800)],
+        replay=dict(script='logger_model.py', args=['--histories', 1500], timeout=1800),
         functions=[FL + "._expand_arrays", FL + "._record", FL + ".__call__"],
         mutants=MUT["C12"],
         explanation="Data-structure contracts on the log: well-formedness invariant (equal lengths, X_flag[i] <=> i <= Xn, count), new-record clause over the whole view "
@@ -154,6 +172,7 @@ PROPS = {
     ),
     "C17": dict(
         level="proof",
+        native=[dict(name='witness-c17', script='witness_c17.py', args=[], timeout=120), panel('C17', 6, 36)], replay=replay('C17'),
         functions=[CC],
         mutants=MUT["C17"],
         explanation="Postconditions of contraints_check for every candidate array, box, tolerance and log: rows inside the box filtered against (both projection modes), "
@@ -161,6 +180,7 @@ PROPS = {
     ),
     "C01": dict(
         level="proof",
+        native=[panel('C01', 6, 36)], replay=replay('C01'),
         functions=[VT + ".inverse_transf", VT + ".__call__", FL + ".__call__", CC, B + ".optimize"],
         scans=[scan_c01],
         mutants=MUT["C01"],
@@ -169,6 +189,7 @@ PROPS = {
     ),
     "C03": dict(
         level="proof",
+        native=[panel('C03', 6, 36)], replay=replay('C03'),
         functions=[B + ".optimize", B + "._search_step_", B + "._poll_step_", B + "._init_optimization_", B + "._init_mesh_", FL + ".__call__"],
         scans=[scan_c03],
         mutants=MUT["C03"],
